@@ -108,7 +108,7 @@ package types
 //@   requires ctx.Exec ==> sig_ok(ctx.Tx, ctx.ChainID)                                                      [C03]
 //@   requires ctx.Sender.Nonce == ctx.Tx.Nonce                                                              [C04]
 //@   modifies everything
-//@   preserves Account.Nonce, Account.Balance, Account.Code, Trx.*, TrxContext.*, govGasPrice, govMinTrxGas
+//@   preserves feeSumObj, u(feeSumObj), govPriceObj, u(govPriceObj), RigoApp.*, BlockContext.*, Config.*, GovParams.gasPrice, Account.Nonce, Account.Balance, Account.Code, Trx.*, TrxContext.*, govGasPrice, govMinTrxGas
 //@   ensures wf_ctx(ctx) && tx_same(ctx.Tx)
 //@   ensures result != nil ==> u(ctx.Sender.Balance) == old(u(ctx.Sender.Balance))                         [C05]
 //@   ensures result == nil ==> u(ctx.Sender.Balance) >= old(u(ctx.Sender.Balance)) - u(ctx.Tx.Amount)      [C16]
@@ -125,7 +125,7 @@ package types
 //@   requires ctx.Exec ==> sig_ok(ctx.Tx, ctx.ChainID)                                                      [C03]
 //@   requires ctx.Sender.Nonce == ctx.Tx.Nonce                                                              [C04]
 //@   modifies everything
-//@   preserves Account.Balance, Trx.*, TrxContext.Tx, TrxContext.Sender, TrxContext.Receiver, TrxContext.Exec, TrxContext.ChainID, TrxContext.AcctHandler, TrxContext.GovHandler, govGasPrice, govMinTrxGas
+//@   preserves feeSumObj, u(feeSumObj), govPriceObj, u(govPriceObj), RigoApp.*, BlockContext.*, Config.*, GovParams.gasPrice, Account.Balance, Trx.*, TrxContext.Tx, TrxContext.Sender, TrxContext.Receiver, TrxContext.Exec, TrxContext.ChainID, TrxContext.AcctHandler, TrxContext.GovHandler, govGasPrice, govMinTrxGas
 //@   ensures wf_ctx(ctx) && tx_same(ctx.Tx)
 //@   ensures result == nil && ctx.Exec ==> ctx.Sender.Nonce == old(ctx.Sender.Nonce) + 1                    [C04]
 //@   ensures result != nil ==> ctx.Sender.Nonce == old(ctx.Sender.Nonce) && u(ctx.Sender.Balance) == old(u(ctx.Sender.Balance))   [C04,C05]
@@ -196,3 +196,40 @@ package types
 //@   loop 0: invariant rangeindex >= 0 ==> txctx.TrxGovHandler != nil && txctx.TrxAcctHandler != nil && txctx.TrxStakeHandler != nil && txctx.TrxEVMHandler != nil && txctx.GovHandler != nil && txctx.AcctHandler != nil
 //@   loop 0: invariant forall r :: !fresh(r) ==> as(r, ptr(Account)).Nonce == old(as(r, ptr(Account)).Nonce) && u(r) == old(u(r))
 //@   loop 0: modifies txctx.TxIdx, txctx.TrxGovHandler, txctx.TrxAcctHandler, txctx.TrxStakeHandler, txctx.TrxEVMHandler, txctx.GovHandler, txctx.AcctHandler, txctx.StakeHandler, txctx.ChainID, BlockContext.txsCnt
+
+// ---- per-block fee accumulation and the governance gas price -------------------------------------
+
+//@ func (bctx *BlockContext) AddFee(fee)
+//@   nopanic
+//@   requires bctx != nil && bctx.feeSum != nil && fee != nil
+//@   modifies u(bctx.feeSum)
+//@   ensures old(u(bctx.feeSum)) + old(u(fee)) < 2^256 ==> u(bctx.feeSum) == old(u(bctx.feeSum)) + old(u(fee))   [C16]
+
+//@ func (bctx *BlockContext) SumFee()
+//@   nopanic
+//@   requires bctx != nil && bctx.feeSum != nil
+//@   allocates uint256.Int
+//@   ensures result != nil && fresh(result) && u(result) == u(bctx.feeSum)                                    [C16]
+
+//@ func (bctx *BlockContext) TxsCnt()
+//@   pure
+//@   nopanic
+//@   requires bctx != nil
+//@   ensures result == bctx.txsCnt
+
+//@ func (bctx *BlockContext) AddTxsCnt(d)
+//@   nopanic
+//@   requires bctx != nil
+//@   modifies bctx.txsCnt
+
+//@ func GasToFee(gas, price)
+//@   nopanic
+//@   requires price != nil
+//@   allocates uint256.Int
+//@   ensures result != nil && fresh(result) && (gas * u(price) < 2^256 ==> u(result) == gas * u(price))        [C16]
+
+//@ func (r *GovParams) GasPrice()
+//@   nopanic
+//@   requires r != nil && r.gasPrice != nil
+//@   allocates uint256.Int
+//@   ensures result != nil && fresh(result) && u(result) == u(r.gasPrice)                                      [C16,C15]
